@@ -14,7 +14,7 @@ META = dict(
     functions_encoded=['(*Arch).IsWildcard', '(*Arch).Is', '(*ArchSet).Matches', '(*Dependency).GetPossibilities', '(*Dependency).GetAllPossibilities',
                        '(*Dependency).GetSubstvars', 'VersionRelation.SatisfiedBy', 'version.Parse', 'version.Compare', 'version.verrevcmp'],
     stubs=['strings.* models as in C03'],
-    bounds={'quick': 'architectures: the atomic all, or a triple of symbolic 3-byte components each either "any" or an arbitrary name other than any/all; lists of 0-2 entries with symbolic negation; dependencies of 2 relations x 3 alternatives with symbolic substvar/empty-list/negation flags and symbolic 1-byte cpu names; (op, N, V): op any string of length 0-2 over {<,>,=,x}, N any string of length <= 3 over [0-9.~:-a ], V with any 64-bit epoch, upstream <= 2, revision <= 1',
+    bounds={'quick': 'architectures: the atomic all, or a triple of symbolic 3-byte components each either "any" or an arbitrary name other than any/all; lists of 0-2 entries with symbolic negation; dependencies of 2 relations x 3 alternatives with symbolic substvar/empty-list/negation flags, a multiarch qualifier, a version constraint and a build-profile restriction present on all / none / alternating alternatives (14 patterns), and symbolic 1-byte cpu and qualifier names; (op, N, V): op any string of length 0-2 over {<,>,=,x}, N any string of length <= 3 over [0-9.~:-a ], V with any 64-bit epoch, upstream <= 2, revision <= 1',
             'thorough': 'lists of 0-3 entries; N up to 4 characters, V upstream <= 3'},
     outside_claim=['"all" as one component of a mixed triple (excluded by the quantifier)', 'wildcard against wildcard (the statement is silent)', 'longer version numbers'],
     assumptions=['data independence: the code only tests components for equality with "any", "all" and with each other, so 3-byte symbolic names are exhaustive up to renaming',
@@ -44,7 +44,13 @@ def jobs(tier):
     for n in range(b['SET'] + 1):
         for modes in itertools.product(('all', 'sym'), repeat=n + 1):
             js.append(dict(name='set_%d_%s' % (n, ''.join(m[0] for m in modes)), kind='set', n=n, modes=modes))
-    js.append(dict(name='select', kind='select'))
+    # qualifier / version / profile presence per alternative (6-bit masks): the eight uniform combinations and each
+    # kind alone on alternating alternatives
+    masks = [(a * 63, b * 63, c * 63) for a in (0, 1) for b in (0, 1) for c in (0, 1)]
+    for m in (42, 21):
+        masks += [(m, 0, 0), (0, m, 0), (0, 0, m)]
+    for qf, vr, stg in masks:
+        js.append(dict(name='select_%d_%d_%d' % (qf, vr, stg), kind='select', qf=qf, vr=vr, st=stg))
     for lo in range(0, 3):
         for ln in range(0, b['NN'] + 1):
             for lu in range(0, b['UV'] + 1):
@@ -72,9 +78,12 @@ def run_job(env, job):
         bools = [z3.Bool('%s%d' % (nm, i)) for nm in ('sv', 'emp', 'not') for i in range(6)]
         ents = [symstr('e%d' % i, 1) for i in range(6)]
         o = symstr('o', 1)
-        for s in ents + [o]:
+        q = symstr('q', 1)
+        for s in ents + [o, q]:
             assume.append(in_set(s[0], b'abc'))
-        return run_harness(env, PKG, 'VerifC06Select', bools + ents + [o], assume, unwind=16, sample='selection over 2 relations x 3 alternatives, symbolic flags, cpu names over {a,b,c}')
+        extra = [bool((job[nm] >> i) & 1) for nm in ('qf', 'vr', 'st') for i in range(6)]
+        return run_harness(env, PKG, 'VerifC06Select', bools + ents + [o] + extra + [q], assume, unwind=16,
+                           sample='selection over 2 relations x 3 alternatives, symbolic substvar/empty/negation flags, qualifier/version/profile presence masks %d/%d/%d, cpu and qualifier names over {a,b,c}' % (job['qf'], job['vr'], job['st']))
     op, n = symstr('op', job['lo']), symstr('n', job['ln'])
     uv, rv = symstr('uv', job['lu']), symstr('rv', job['lr'])
     ev = z3.BitVec('ev', 64)
@@ -92,7 +101,8 @@ def validation_calls(env, seed):
     for _ in range(15):
         calls.append(('VerifC06Set', [rnd.randint(0, 3), rnd.random() < .5] + [rnd.choice(names) for _ in range(12)]))
     for _ in range(15):
-        calls.append(('VerifC06Select', [rnd.random() < .4 for _ in range(18)] + [rnd.choice([b'a', b'b']) for _ in range(7)]))
+        calls.append(('VerifC06Select', [rnd.random() < .4 for _ in range(18)] + [rnd.choice([b'a', b'b']) for _ in range(7)] +
+                      [rnd.random() < .4 for _ in range(18)] + [rnd.choice([b'a', b'b'])]))
     for op in (b'<<', b'<=', b'=', b'>=', b'>>', b'', b'x', b'=='):
         for n, v in ((b'1.0', b'1.0'), (b'1.0', b'1.1'), (b'2', b'1'), (b'a', b'1'), (b'1.0-0', b'1.0'), (b'1.00', b'1.0')):
             calls.append(('VerifC06Sat', [op, n, 0, v, b'']))
